@@ -65,6 +65,7 @@ const KNOWN_RULES: &[&str] = &[
     "spawn_drop",
     "iter_loop",
     "alloc_reserve",
+    "into_from",
 ];
 
 pub fn apply(repo: &str, req: &ItemReq, f: &mut FnUnderEdit) -> Result<(), String> {
@@ -177,6 +178,13 @@ pub fn apply(repo: &str, req: &ItemReq, f: &mut FnUnderEdit) -> Result<(), Strin
         let n = v.n;
         f.fire("std_net", n);
     }
+    // R32 `X.iter()/into_iter() [.map(c) | .filter(c)]* .collect()` -> explicit loop over model iterator / collector traits
+    if has("iter_loop") {
+        let mut v = IterLoop { n: 0, types: req.collect_types.clone() };
+        v.visit_block_mut(&mut f.block);
+        let n = v.n;
+        f.fire("iter_loop", n);
+    }
     // R31 detached background tasks are dropped
     if has("spawn_drop") {
         let mut v = SpawnDrop { n: 0 };
@@ -266,12 +274,12 @@ pub fn apply(repo: &str, req: &ItemReq, f: &mut FnUnderEdit) -> Result<(), Strin
         let n = v.n;
         f.fire("error_cause", n);
     }
-    // R32 `X.iter()/into_iter() [.map(c) | .filter(c)]* .collect()` -> explicit loop over model iterator / collector traits
-    if has("iter_loop") {
-        let mut v = IterLoop { n: 0, types: req.collect_types.clone() };
+    // R34 `Into::into(x)` / `TryInto::try_into(x)` as paths -> `From::from(x)` / `TryFrom::try_from(x)` (std's blanket impls)
+    if has("into_from") {
+        let mut v = IntoFrom { n: 0 };
         v.visit_block_mut(&mut f.block);
         let n = v.n;
-        f.fire("iter_loop", n);
+        f.fire("into_from", n);
     }
     // R17 iterator-adaptor chains ending in collect() -> vx_havoc()
     if has("havoc_iter") {
@@ -912,6 +920,8 @@ struct IterLoop {
 enum Adaptor {
     Map(syn::ExprClosure),
     Filter(syn::ExprClosure),
+    /// `.map(path)`: the function named by the path is applied to the item
+    MapPath(syn::ExprPath),
 }
 fn iter_chain(e: &syn::Expr) -> Option<(syn::Expr, bool, Vec<Adaptor>)> {
     // returns (base, by_ref, adaptors in application order) for the receiver of `.collect()`
@@ -920,6 +930,13 @@ fn iter_chain(e: &syn::Expr) -> Option<(syn::Expr, bool, Vec<Adaptor>)> {
             let name = m.method.to_string();
             if (name == "iter" || name == "into_iter") && m.args.is_empty() {
                 return Some(((*m.receiver).clone(), name == "iter", vec![]));
+            }
+            if name == "map" && m.args.len() == 1 {
+                if let syn::Expr::Path(p) = &m.args[0] {
+                    let (base, by_ref, mut ads) = iter_chain(&m.receiver)?;
+                    ads.push(Adaptor::MapPath(p.clone()));
+                    return Some((base, by_ref, ads));
+                }
             }
             if (name == "map" || name == "filter") && m.args.len() == 1 {
                 if let syn::Expr::Closure(c) = &m.args[0] {
@@ -970,6 +987,7 @@ impl VisitMut for IterLoop {
                                 let body = &c.body;
                                 syn::parse_quote!({ if { let #pat = &__vx_x; #body } #inner })
                             }
+                            Adaptor::MapPath(p) => syn::parse_quote!({ let __vx_x = #p(__vx_x); #inner }),
                         };
                     }
                     let start: syn::Expr = if by_ref {
@@ -998,6 +1016,23 @@ impl VisitMut for IterLoop {
                     self.n += 1;
                 }
             }
+        }
+    }
+}
+
+// ---------------------------------------------------------------- R34
+struct IntoFrom {
+    n: usize,
+}
+impl VisitMut for IntoFrom {
+    fn visit_expr_path_mut(&mut self, p: &mut syn::ExprPath) {
+        let t = norm(&p.path);
+        if t == "Into::into" {
+            *p = syn::parse_quote!(From::from);
+            self.n += 1;
+        } else if t == "TryInto::try_into" {
+            *p = syn::parse_quote!(TryFrom::try_from);
+            self.n += 1;
         }
     }
 }
